@@ -572,7 +572,8 @@ type caseIn struct {
 	Vars    string   `json:"vars"`
 	Protect []string `json:"protect"`
 	Deny    []string `json:"deny"`
-	Mode    string   `json:"mode"` // none | post | batch
+	Mode    string   `json:"mode"` // none | post | batch | both
+	Fail    []string `json:"fail"` // coordinates for which the authorizer returns an error
 	Fresh   bool     `json:"fresh"`
 }
 
@@ -581,8 +582,11 @@ const denyReason = "policy-says-no"
 type authorizer struct {
 	mu    sync.Mutex
 	deny  map[string]bool
+	fail  map[string]bool
 	asked []string
 }
+
+var errAuthorizer = fmt.Errorf("authorizer backend unavailable")
 
 func (a *authorizer) decide(kind string, c resolve.GraphCoordinate) bool {
 	name := c.TypeName + "." + c.FieldName
@@ -592,7 +596,14 @@ func (a *authorizer) decide(kind string, c resolve.GraphCoordinate) bool {
 	return a.deny[name]
 }
 
+func (a *authorizer) fails(c resolve.GraphCoordinate) bool {
+	return a.fail[c.TypeName+"."+c.FieldName]
+}
+
 func (a *authorizer) AuthorizePreFetch(ctx *resolve.Context, dataSourceID string, input json.RawMessage, coordinate resolve.GraphCoordinate) (*resolve.AuthorizationDeny, error) {
+	if a.fails(coordinate) {
+		return nil, errAuthorizer
+	}
 	if a.decide("prefetch", coordinate) {
 		return &resolve.AuthorizationDeny{Reason: denyReason}, nil
 	}
@@ -600,6 +611,9 @@ func (a *authorizer) AuthorizePreFetch(ctx *resolve.Context, dataSourceID string
 }
 
 func (a *authorizer) AuthorizeObjectField(ctx *resolve.Context, dataSourceID string, object json.RawMessage, coordinate resolve.GraphCoordinate) (*resolve.AuthorizationDeny, error) {
+	if a.fails(coordinate) {
+		return nil, errAuthorizer
+	}
 	if a.decide("field", coordinate) {
 		return &resolve.AuthorizationDeny{Reason: denyReason}, nil
 	}
@@ -615,6 +629,9 @@ type batchAuthorizer struct{ a *authorizer }
 func (b batchAuthorizer) AuthorizeFields(ctx *resolve.Context, coordinates []resolve.GraphCoordinate) ([]resolve.AuthorizationDecision, error) {
 	out := make([]resolve.AuthorizationDecision, len(coordinates))
 	for i, c := range coordinates {
+		if b.a.fails(c) {
+			return nil, errAuthorizer
+		}
 		if b.a.decide("batch", c) {
 			out[i] = resolve.AuthorizationDecision{Allowed: false, Reason: denyReason}
 		} else {
@@ -882,9 +899,12 @@ func runCase(env *fedenv.Env, c *caseIn) (co caseOut) {
 		}
 	}()
 	env.Reset()
-	a := &authorizer{deny: map[string]bool{}}
+	a := &authorizer{deny: map[string]bool{}, fail: map[string]bool{}}
 	for _, d := range c.Deny {
 		a.deny[d] = true
+	}
+	for _, d := range c.Fail {
+		a.fail[d] = true
 	}
 	var opts []engine.ExecutionOptions
 	switch c.Mode {
@@ -1044,7 +1064,7 @@ func forEachLine(path string, fn func([]byte)) {
 func os_stderr() io.Writer { return os.Stderr }
 
 func main() {
-	mode := flag.String("mode", "run", "shape | run | synth")
+	mode := flag.String("mode", "run", "shape | run | synth | subs")
 	in := flag.String("in", "", "input NDJSON")
 	out := flag.String("out", "", "output NDJSON")
 	par := flag.Int("par", 8, "parallel engine configurations")
@@ -1059,6 +1079,8 @@ func main() {
 		runCases(*in, *out, *par)
 	case "synth":
 		runSynth(*in, *out)
+	case "subs":
+		runSubs(*in, *out, *par)
 	default:
 		fatal(fmt.Errorf("unknown mode %q", *mode))
 	}
